@@ -260,7 +260,7 @@ def pipeline(body_of, it):
             extra_bases += other["bases"]
             t = t[2][0]
             continue
-        if isinstance(t, tuple) and t and t[0] == "call" and mir.method_name(t[1]) in ("enumerate", "filter", "map", "cloned", "copied", "by_ref", "into_iter") and t[2]:
+        if isinstance(t, tuple) and t and t[0] == "call" and mir.method_name(t[1]) in ("enumerate", "filter", "map", "flat_map", "cloned", "copied", "by_ref", "into_iter") and t[2]:
             stages.append((mir.method_name(t[1]), t[2][1] if len(t[2]) > 1 else None))
             t = t[2][0]
             continue
@@ -277,6 +277,27 @@ def pipeline(body_of, it):
             cur = mir.T("tuple", (mir.T("enumidx", t), cur))
         elif m in ("cloned", "copied", "by_ref", "into_iter"):
             pass
+        elif m == "flat_map":
+            # for each element x: every element of f(x), where f(x) is itself a plain iterator over a list of x
+            if not (isinstance(clos, tuple) and clos and clos[0] == "closure"):
+                out["problems"].append("flat_map with a non-closure argument")
+                return out
+            try:
+                paths, cb = mir.walk_closure(body_of, clos, param_terms=[cur])
+            except Exception as ex:
+                out["problems"].append("flat_map closure: %s" % type(ex).__name__)
+                return out
+            rets = [p for p in paths if p.outcome[0] == "return"]
+            if len(rets) != 1 or [e for e in rets[0].events if e.kind == "guard"]:
+                out["problems"].append("flat_map closure is not a single expression")
+                return out
+            inner = rets[0].outcome[1]
+            if not (isinstance(inner, tuple) and inner and inner[0] == "iter"):
+                out["problems"].append("flat_map closure does not return a plain iterator")
+                return out
+            out["outer_elem"] = cur
+            out["inner_iter"] = inner
+            cur = mir.T("elem", inner, None)
         elif m in ("filter", "map"):
             if not (isinstance(clos, tuple) and clos and clos[0] == "closure"):
                 out["problems"].append("%s with a non-closure argument" % m)
@@ -380,3 +401,35 @@ def any_scan(body_of, atom):
         el.problems.append("not an any() call")
         return el
     return closure_scan(body_of, atom)
+
+
+
+def expand_pure(body_of, facts, atom, value):
+    """a guard on a crate-local pure predicate whose body is a plain conjunction (`a(x) && b(x) && c(x)`): when it is
+    TRUE every conjunct is true -> list of implied (atom, value) pairs (with the arguments substituted); [] otherwise"""
+    from . import mir
+    if value is not True or not (isinstance(atom, tuple) and atom and atom[0] == "call" and atom[1] in getattr(facts, "bodies", {})):
+        return []
+    b = body_of(atom[1])
+    if b.loops() or len(b.blocks) > 60:
+        return []
+    true_paths = []
+    for p in mir.walk_function(b):
+        if p.outcome[0] != "return":
+            continue
+        r = p.outcome[1]
+        v = mir.const_int(r)
+        gs = [(e.a, e.b) for e in p.events if e.kind == "guard"]
+        if v is None:
+            leaves = []
+            bool_leaves(r, leaves)
+            if len(leaves) != 1:
+                return []
+            neg = isinstance(r, tuple) and r[0] == "not"
+            true_paths.append(gs + [(leaves[0], not neg)])
+        elif v:
+            true_paths.append(gs)
+    if len(true_paths) != 1:
+        return []
+    m = {mir.T("param", i + 1, b.dbg.get(i + 1, "")): a for i, a in enumerate(atom[2])}
+    return [(mir.subst(a, m) if isinstance(a, tuple) else a, v) for a, v in true_paths[0]]
